@@ -247,12 +247,21 @@ class Abs:
                     return base[self._native_key(e.slice)]
                 except IndexError as ex:
                     raise Raised("IndexError(%s)" % ex)
+                except TypeError as ex:
+                    if "slice indices must be integers" in str(ex):
+                        raise Raised("TypeError(%s)" % ex)
+                    raise
             if isinstance(e.slice, ast.Slice):
                 lo = self.ev(e.slice.lower) if e.slice.lower is not None else None
                 hi = self.ev(e.slice.upper) if e.slice.upper is not None else None
                 st = self.ev(e.slice.step) if e.slice.step is not None else None
                 if isinstance(base, (list, tuple, str)):
-                    return base[lo:hi:st]
+                    if any(isinstance(v, (Tok, Obj)) for v in (lo, hi, st)):
+                        raise Undecided("slice bounds %r" % ((lo, hi, st),))
+                    try:
+                        return base[lo:hi:st]
+                    except (TypeError, ValueError) as ex:
+                        raise Raised("%s(%s)" % (type(ex).__name__, ex))
                 raise Undecided("slice of %r" % (base,))
             k = self.ev(e.slice)
             try:
@@ -557,7 +566,12 @@ class Abs:
                 return len(args[0])
             raise Raised("TypeError(len)")
         if dn == "range":
-            return list(range(*args))
+            if any(isinstance(a, (Tok, Obj)) or getattr(a, "_abs_native", False) for a in args):
+                raise Undecided("range over %r" % (args,))
+            try:
+                return list(range(*args))
+            except (TypeError, ValueError) as ex:
+                raise Raised("%s(%s)" % (type(ex).__name__, ex))
         if dn == "bool" and len(args) == 1:
             return self.truth(args[0])
         if dn == "object" and not args:
